@@ -62,9 +62,16 @@ theorem frames_independent {σ : Type} (f : Nat → σ → σ) (frames : List σ
     (runSched f frames sched)[i]? = (frames[i]?).map (iter (f i) (sched.count i)) :=
   runSched_frame f frames sched i
 
+/-- types whose methods are documented as safe for concurrent use (trusted): a method call on a package-level
+    variable of such a type is not shared mutable state -/
+def concurrencySafeTypes : List String := ["*regexp.Regexp"]
+
 /-- ✓gen — interpreter.engine has no fields; no package-level variable of bt, bscript, interpreter, sighash or
-    scriptflag is assigned, incremented or address-taken outside init functions -/
-theorem engine_stateless : GoBT.Gen.Shared.engineFields = 0 ∧ GoBT.Gen.Shared.writtenGlobals = [] := by
+    scriptflag is assigned, incremented or address-taken outside init functions; and the only methods invoked on
+    package-level variables belong to types documented as safe for concurrent use -/
+theorem engine_stateless :
+    GoBT.Gen.Shared.engineFields = 0 ∧ GoBT.Gen.Shared.writtenGlobals = [] ∧
+    (GoBT.Gen.Shared.globalMethodCalls.all fun c => concurrencySafeTypes.any fun t => c.startsWith (t ++ " ")) = true := by
   decide +kernel
 
 /-- non-vacuity: two threads running AddQuote and Fee on one FeeQuote are guarded programs; an unguarded writer
